@@ -162,7 +162,7 @@ fn execute(
         oracle.before(world, &ev);
         let t_ev = std::time::Instant::now();
         let res = world.step(&ev);
-        if slow_report() && t_ev.elapsed().as_millis() > 200 {
+        if slow_report() && t_ev.elapsed().as_millis() > 50 {
             eprintln!("slow event #{idx}: {} ms: {}", t_ev.elapsed().as_millis(), serde_json::to_string(&ev).unwrap_or_default());
         }
         let result = match (&res.panic, &res.result) {
